@@ -143,10 +143,12 @@ def rule_r2(ctx: Ctx) -> None:
             why = ""
             yidx = next(i for i, b in enumerate(t.body) if any(isinstance(y, (ast.Yield, ast.YieldFrom)) for y in ast.walk(b)))
             after = [x for b in list(t.body[yidx + 1:]) + list(t.orelse) for x in ast.walk(b)]     # what runs only after a successful yield
-            if isinstance(loop, ast.While):
-                test_names = {x.id for x in ast.walk(loop.test) if isinstance(x, ast.Name)}
+            endless_for = isinstance(loop, ast.For) and isinstance(loop.iter, ast.Call) and call_name(loop.iter) in ("count", "cycle", "repeat") \
+                and not (call_name(loop.iter) == "repeat" and len(loop.iter.args) > 1)
+            if isinstance(loop, ast.While) or endless_for:
+                test_names = {x.id for x in ast.walk(loop.test) if isinstance(x, ast.Name)} if isinstance(loop, ast.While) else set()
                 counted = any(isinstance(x, ast.AugAssign) and isinstance(x.target, ast.Name) and x.target.id in test_names for x in after)
-                forever = isinstance(loop.test, ast.Constant) and loop.test.value is True
+                forever = endless_for or (isinstance(loop.test, ast.Constant) and loop.test.value is True)
                 left_after = any(isinstance(x, (ast.Break, ast.Return)) for x in after)
                 exits_elsewhere = [x for b in loop.body for x in ast.walk(b) if isinstance(x, ast.Break) and x not in after]
                 if counted or (forever and left_after and not exits_elsewhere):
